@@ -26,6 +26,13 @@ TARGETS (harness/translate_all.py)
             (PyGen.py_in_slice: negative bounds wrap, bounds are clipped, a[-0:] is the whole axis);
             A.shape[k] / A.ndim are the declared lengths.  Index (non-slice) subscripts and steps are refused.
     'test': the condition of the `if` statement that mentions a given name (Translator.if_test).
+    'ret' : the expression of the n-th `return E` of a function, or (append='out') the argument of the n-th
+            `out.append(E)` (Translator.ret_expr).
+  Cells may also be attribute targets (self.normalization_value) or dict items (self.__dict__['profile']); a cell is
+  an argument only if it is listed in `sorts` (its value before the span).  Reading self.X after
+  self.__dict__['X'] was assigned in the span is refused (the lazyproperty would alias it).
+  `decorators_ok=[...]` lists decorators a 'def' target declares transparent for the per-source value
+  (as_scalar, use_detcat); any other decorator is refused.
   Options of every kind: `abstract={'np.iinfo(self.data.dtype).max': ('dtype_max', Z)}` -- the expression with
   exactly this text is an argument of the declared sort (a library value the translator does not look into);
   `funcs={'np.sqrt': ('sqrt_', 1)}` -- an UNINTERPRETED real function: an extra argument (sqrt_ : Q -> Q),
@@ -64,7 +71,9 @@ EXPRESSIONS
     min / max (n arguments or one literal tuple), abs, int() (identity on Z; on a float: truncation toward
     zero = floor for x >= 0, ceiling otherwise), float(), math.floor / math.ceil (Q -> Z: Qfloor / Qceiling),
     slice(a, b), isinstance(x, T) decided from the declared sort of x (classes may list their Python type
-    names: np.ndarray)
+    names: np.ndarray);
+    s.start / s.stop of a known slice; t[i] where i is the variable of an unrolled `for i in (0, 1)`;
+    np.isfinite(x) of a declared (finite) number is True
     numpy scalar liftings: np.floor / np.ceil (integer-valued result, kept as Z), np.clip(v, lo, hi) =
     minimum(maximum(v, lo), hi), np.where(c, a, b) = if c then a else b, np.array([...]) -> list,
     list / scalar (elementwise), np.asarray / np.asanyarray / np.atleast_1d of a scalar, x.astype(int)
@@ -129,7 +138,7 @@ def LIST(s):
 SLICE = TUP(Z, Z)
 
 EXNS = {'TypeError', 'ValueError', 'ZeroDivisionError', 'UnboundLocalError', 'IndexError', 'KeyError',
-        'NotImplementedError', 'RuntimeError', 'AttributeError'}
+        'NotImplementedError', 'RuntimeError', 'AttributeError', 'NoOverlapError'}
 RESERVED = set('''at end in fun let if then else match with as return fix forall exists Type Set Prop using where
 for mod is Ok Raise Some None true false negb andb orb fst snd Qfloor Qceiling Qmin Qmax Qabs Qltb Qle_bool
 Qeq_bool inject_Z list option res pyexn bool string nil cons pair Z Q N nat Definition'''.split()) | EXNS
@@ -216,12 +225,14 @@ class Translator:
         # np.sqrt(e) becomes (sqrt_ e).  Nothing is assumed about them: the tie theorems state their hypotheses.
         self.funcs = dict(funcs or {})
         self.func_vals = {}
+        self.cell_written = set()
         self.classes = classes          # {'Class': {'fields': [(name, sort)...]}}
         self.registry = registry        # {(class or None, pyname): Fn}
         self.elementwise = elementwise
         self.abstract_vals, self.block_mode, self.cells = {}, False, {}
         self.write_arr, self.write_lens, self.write_idx, self.write_val = None, [], [], None
         self.func_vals = {}
+        self.cell_written = set()
 
     # -------- errors
     def bad(self, node, why=''):
@@ -324,10 +335,16 @@ class Translator:
 
     # -------- expressions
     def E(self, n, env):
-        if self.abstract_vals and isinstance(n, (ast.Call, ast.Subscript, ast.Attribute)):
+        if self.abstract_vals and not isinstance(n, (ast.Name, ast.Constant)):
             v = self.abstract_vals.get(ast.unparse(n))
             if v is not None:
                 return v
+        if self.cells and isinstance(n, (ast.Attribute, ast.Subscript)):
+            key = ast.unparse(n)
+            if key in self.cells:
+                if key in env:
+                    return env[key]
+                raise _Unbound(key)
         m = getattr(self, 'e_' + type(n).__name__, None)
         if m is None:
             raise self.bad(n)
@@ -377,6 +394,16 @@ class Translator:
         return V('[' + '; '.join(p.code for p in parts) + ']', LIST(s), parts)
 
     def e_Attribute(self, n, env):
+        if isinstance(n.value, ast.Name) and n.value.id == 'self' and f"self.__dict__['{n.attr}']" in self.cell_written:
+            raise self.bad(n, f'self.{n.attr} is read after self.__dict__[{n.attr!r}] was assigned in the span')
+        if n.attr in ('start', 'stop') and not isinstance(n.value, ast.Name):
+            v = self.E(n.value, env)
+            if v.sort == SLICE and v.parts is not None:
+                return v.parts[0 if n.attr == 'start' else 1]
+            raise self.bad(n, '.start/.stop of a value that is not a known slice')
+        if n.attr in ('start', 'stop') and isinstance(n.value, ast.Name) and n.value.id in env \
+                and env[n.value.id].sort == SLICE and env[n.value.id].parts is not None:
+            return env[n.value.id].parts[0 if n.attr == 'start' else 1]
         if isinstance(n.value, ast.Name) and self.write_arr is not None and n.value.id == self.write_arr:
             if n.attr == 'shape':
                 return V('(' + ', '.join(v.code for v in self.write_lens) + ')', TUP(*[Z] * len(self.write_lens)),
@@ -422,6 +449,9 @@ class Translator:
             return v.parts[names.index(key)]
         if isinstance(k, ast.UnaryOp) and isinstance(k.op, ast.USub) and isinstance(k.operand, ast.Constant):
             k = ast.Constant(value=-k.operand.value)
+        if isinstance(k, ast.Name) and k.id in env and env[k.id].sort == Z and isinstance(env[k.id].lit, int) \
+                and not isinstance(env[k.id].lit, bool):
+            k = ast.Constant(value=env[k.id].lit)       # e.g. the variable of an unrolled `for i in (0, 1)`
         if not (isinstance(k, ast.Constant) and isinstance(k.value, int) and not isinstance(k.value, bool)):
             raise self.bad(n, 'subscript must be a literal integer')
         if v.arr1:
@@ -784,6 +814,11 @@ class Translator:
             if 'axis' in kw and not (isinstance(kw['axis'], ast.Constant) and kw['axis'].value in (1, -1)):
                 raise self.bad(n, 'axis')
             return V('(' + ' || '.join(p.code for p in a.parts) + ')', B)
+        if name == 'np.isfinite':
+            a, = args(1)
+            if is_num(a.sort) and not a.vec:
+                return V('true', B, lit=True)       # the declared sorts Z / Q are finite numbers
+            raise self.bad(n, 'np.isfinite of a non-number')
         if name == 'np.isscalar':
             a, = args(1)
             if not (is_num(a.sort) or a.sort in (B, S)):
@@ -1012,9 +1047,10 @@ class Translator:
                     body = w(body)
                 return body
             return env, wrap
-        if isinstance(target, ast.Subscript) and ast.unparse(target) in self.cells:
-            # a declared accumulator cell such as flags[index]
+        if isinstance(target, (ast.Subscript, ast.Attribute)) and ast.unparse(target) in self.cells:
+            # a declared cell such as flags[index], self.normalization_value, self.__dict__['profile']
             key = ast.unparse(target)
+            self.cell_written.add(key)
             v = V(self.coerce(v, self.cells[key], node), self.cells[key])
             return self.bind(key, v, env, node)
         if (isinstance(target, ast.Subscript) and isinstance(target.value, ast.Name)
@@ -1041,7 +1077,7 @@ class Translator:
         return self.with_value(s.value, env, base, k)
 
     def s_AugAssign(self, s, env, cont):
-        if isinstance(s.target, ast.Subscript) and ast.unparse(s.target) in self.cells:
+        if isinstance(s.target, (ast.Subscript, ast.Attribute)) and ast.unparse(s.target) in self.cells:
             left = ast.Name(id=ast.unparse(s.target), ctx=ast.Load())      # the cell is an env entry under its text
         elif isinstance(s.target, ast.Name):
             left = ast.Name(id=s.target.id, ctx=ast.Load())
@@ -1162,8 +1198,9 @@ class Translator:
         self.abstract_vals, self.block_mode, self.cells = {}, False, {}
         self.write_arr, self.write_lens, self.write_idx, self.write_val = None, [], [], None
         self.func_vals = {}
+        self.cell_written = set()
 
-    def function(self, fdef, src_lines, gen_name, cls_name, sorts, abstract=None, vec=()):
+    def function(self, fdef, src_lines, gen_name, cls_name, sorts, abstract=None, vec=(), decorators_ok=()):
         """translate one FunctionDef; `sorts` = {python parameter name: sort} or the list of the sorts of the
         parameters after self / cls (then renaming a parameter in the source is harmless)"""
         decos = [self.dotted(d) for d in fdef.decorator_list]
@@ -1175,6 +1212,8 @@ class Translator:
                 kind = d
             elif d in ('property', 'lazyproperty'):
                 kind = 'property'
+            elif d in decorators_ok:
+                pass        # declared by the target as transparent for the per-source value (as_scalar, use_detcat)
             else:
                 raise self.bad(fdef, f'decorator {d}')
         a = fdef.args
@@ -1324,13 +1363,15 @@ class Translator:
             self.func_vals[name] = cname
             self.func_notes.append(f'{name} -> {cname}')
 
-    @staticmethod
-    def _self_attrs(nodes, abstract):
-        """attributes self.<a> read in `nodes`, not counting reads inside declared abstract expressions"""
+    def _self_attrs(self, nodes, abstract):
+        """attributes self.<a> read in `nodes`, not counting reads inside declared abstract expressions / cells"""
         out = set()
 
         def walk(n):
-            if abstract and isinstance(n, (ast.Call, ast.Subscript, ast.Attribute)) and ast.unparse(n) in abstract:
+            if abstract and not isinstance(n, (ast.Name, ast.Constant)) and isinstance(n, ast.expr) \
+                    and ast.unparse(n) in abstract:
+                return
+            if self.cells and isinstance(n, (ast.Attribute, ast.Subscript)) and ast.unparse(n) in self.cells:
                 return
             if isinstance(n, ast.Attribute) and isinstance(n.value, ast.Name) and n.value.id == 'self':
                 out.add(n.attr)
@@ -1416,6 +1457,8 @@ class Translator:
                     raise self.bad(t, 'control transfer inside a translated span')
         stored = {t.id for st in stmts for t in ast.walk(st) if isinstance(t, ast.Name) and isinstance(t.ctx, ast.Store)}
         reads = {t.id for st in stmts for t in ast.walk(st) if isinstance(t, ast.Name) and isinstance(t.ctx, ast.Load)}
+        reads |= {t.target.id for st in stmts for t in ast.walk(st)
+                  if isinstance(t, ast.AugAssign) and isinstance(t.target, ast.Name)}      # x += e reads x
         self.setup(cls_name, False, stored)
         self.block_mode = True
         self.cells = dict(cells or {})
@@ -1450,6 +1493,32 @@ class Translator:
         ir = self.block(stmts, env, done)
         span = (stmts[0].lineno, stmts[-1].end_lineno)
         return self.finish(ir, gen_name, pyparams, 'function', span, src_lines, fdef, what=what)
+
+    def ret_expr(self, fdef, src_lines, gen_name, cls_name, sorts, fields=None, occurrence=0, append=None,
+                 abstract=None, vec=()):
+        """The expression of the `occurrence`-th `return E` of `fdef` (source order), or with append='out' the
+        argument of the `occurrence`-th statement `out.append(E)`, as a function of the declared names it reads."""
+        if append is None:
+            hits = [n for n in ast.walk(fdef) if isinstance(n, ast.Return) and n.value is not None]
+        else:
+            hits = [n.value for n in ast.walk(fdef) if isinstance(n, ast.Expr) and isinstance(n.value, ast.Call)
+                    and isinstance(n.value.func, ast.Attribute) and n.value.func.attr == 'append'
+                    and isinstance(n.value.func.value, ast.Name) and n.value.func.value.id == append
+                    and len(n.value.args) == 1 and not n.value.keywords]
+        hits.sort(key=lambda n: (n.lineno, n.col_offset))
+        if not -len(hits) <= occurrence < len(hits):
+            raise self.bad(fdef, f'only {len(hits)} such statements')
+        node = hits[occurrence]
+        expr = node.value if append is None else node.args[0]
+        names = {t.id for t in ast.walk(expr) if isinstance(t, ast.Name)}
+        self.setup(cls_name, False, set())
+        self.block_mode = True
+        self.qual = f'{self.qual_of(fdef, cls_name)} :: ' + ('returned expression' if append is None else f'{append}.append argument')
+        env, pyparams = self.declare(sorts, fields, cls_name, names, node, abstract, vec, self._self_attrs([expr], abstract))
+        r, wrap = self.own(lambda: self.E(expr, env))
+        ir = wrap(('ret', r, node))
+        span = (expr.lineno, expr.end_lineno)
+        return self.finish(ir, gen_name, pyparams, 'function', span, src_lines, fdef, what='the expression at')
 
     def if_test(self, fdef, src_lines, gen_name, cls_name, sorts, fields=None, reads=None, occurrence=None,
                 abstract=None, vec=()):
